@@ -44,6 +44,14 @@ package seccomp
 //@ lemma riLink(p0 Program)
 //@   ensures @fwd ri(p0) ==> riS(p0)
 //@   ensures @bwd riS(p0) ==> ri(p0)
+// ---- structure that makes label resolution succeed (spec/48_noerr.smt2), property C07 (d)
+//@ macro ne(p) = fwdOK(p) && hopeOK(p)
+//@ lemma hopeKeepNoJump(p0 Program, l Label)
+//@   ensures noJumpAtEnd(p0) ==> hopeKeep(p0, l)
+//@ lemma hopeKeepEnd(p0 Program, l Label, a Label, b Label)
+//@   ensures endJump(p0, a, b) && ((a != l && !has(p0.labels, a)) || (b != l && !has(p0.labels, b)) || (a != l && b != l)) ==> hopeKeep(p0, l)
+//@ lemma pendExt(p0 Program)
+//@   ensures forallk(S, "(Array Int Bool)", forallk(T, "(Array Int Bool)", pendIn(p0, S) && forallk(l, p0.labels, S[l] ==> T[l]) ==> pendIn(p0, T)))
 // the ghost interpreter state describes the outcome of the label-level program built so far (spec/47_prefix.smt2)
 //@ macro phi(p) = relG(p.G, p.labels, runP3(p.instructions, p.jumps, p.labels, 0, A0))
 
@@ -73,6 +81,8 @@ package seccomp
 //@   use riLink(*p) at exit
 //@   ensures @riS {C06} riS(old(*p)) ==> riS(*p)
 //@   ensures @unplaced {C06} riS(old(*p)) ==> !has(p.labels, result)
+//@   ensures @ne {C07} (ne(old(*p)) ==> ne(*p)) && (noJumpAtEnd(old(*p)) ==> noJumpAtEnd(*p)) && forallk(a, p.labels, forallk(b, p.labels, endJump(old(*p), a, b) ==> endJump(*p, a, b)))
+//@   ensures @pend {C07} forallk(S, "(Array Int Bool)", pendIn(old(*p), S) ==> pendIn(*p, S))
 
 //@ func (p *Program) currentIndex() Index   properties C06
 //@   deterministic C13
@@ -97,6 +107,9 @@ package seccomp
 //@   use riLink(old(*p)) at exit
 //@   use riLink(*p) at exit
 //@   ensures @riS {C06} riS(old(*p)) ==> riS(*p)
+//@   ensures @ne {C07} riS(old(*p)) && ne(old(*p)) && !has(old(p.labels), trueLabel) && !has(old(p.labels), falseLabel) ==> ne(*p) && endJump(*p, trueLabel, falseLabel)
+//@   ensures @pend {C07} forallk(S, "(Array Int Bool)", pendIn(old(*p), S) && S[trueLabel] && S[falseLabel] ==> pendIn(*p, S))
+//@   ensures @pend2 {C07} forallk(S, "(Array Int Bool)", pendIn(old(*p), S) && S[trueLabel] ==> pendIn(*p, store(S, falseLabel, true)))
 
 //@ func (p *Program) SetLabel(label Label)   properties C01 C02 C03 C06
 //@   deterministic C13
@@ -115,6 +128,9 @@ package seccomp
 //@   use riLink(old(*p)) at exit
 //@   use riLink(*p) at exit
 //@   ensures @riS {C06} riS(old(*p)) && label <= old(p.nextLabel) ==> riS(*p)
+//@   ensures @ne {C07} riS(old(*p)) && ne(old(*p)) && !has(old(p.labels), label) && hopeKeep(old(*p), label) ==> ne(*p)
+//@   ensures @pend {C07} forallk(S, "(Array Int Bool)", pendIn(old(*p), S) ==> pendIn(*p, store(S, label, false)))
+//@   ensures @endframe {C07} (noJumpAtEnd(old(*p)) ==> noJumpAtEnd(*p)) && forallk(a, p.labels, forallk(b, p.labels, endJump(old(*p), a, b) ==> endJump(*p, a, b)))
 
 //@ func (p *Program) JmpIfTrue(cond bpf.JumpTest, val uint32, trueLabel Label)   properties C01 C02 C03 C05 C06
 //@   deterministic C13
@@ -132,6 +148,11 @@ package seccomp
 //@   use riLink(old(*p)) at exit
 //@   use riLink(*p) at exit
 //@   ensures @riS {C06} riS(old(*p)) ==> riS(*p)
+//@   use hopeKeepEnd(*p, label, trueLabel, label) at before call Program.SetLabel#1
+//@   use pendExt(*p) at before call Program.JmpIf#1
+//@   use pendExt(*p) at exit
+//@   ensures @ne {C07} riS(old(*p)) && ne(old(*p)) && !has(old(p.labels), trueLabel) && trueLabel <= old(p.nextLabel) ==> ne(*p) && endJump(*p, trueLabel, old(p.nextLabel) + 1)
+//@   ensures @pend {C07} forallk(S, "(Array Int Bool)", pendIn(old(*p), S) && S[trueLabel] ==> pendIn(*p, S))
 
 //@ func (p *Program) Ret(action Action)   properties C01 C05 C06
 //@   deterministic C13
@@ -151,6 +172,8 @@ package seccomp
 //@   use riLink(old(*p)) at exit
 //@   use riLink(*p) at exit
 //@   ensures @riS {C06} riS(old(*p)) ==> riS(*p)
+//@   ensures @ne {C07} riS(old(*p)) && ne(old(*p)) ==> ne(*p) && noJumpAtEnd(*p)
+//@   ensures @pend {C07} forallk(S, "(Array Int Bool)", pendIn(old(*p), S) ==> pendIn(*p, S))
 
 //@ func (p *Program) LdHi(arg uint32)   properties C02 C05
 //@   deterministic C13
@@ -170,6 +193,8 @@ package seccomp
 //@   use riLink(old(*p)) at exit
 //@   use riLink(*p) at exit
 //@   ensures @riS {C06} riS(old(*p)) ==> riS(*p)
+//@   ensures @ne {C07} riS(old(*p)) && ne(old(*p)) ==> ne(*p) && noJumpAtEnd(*p)
+//@   ensures @pend {C07} forallk(S, "(Array Int Bool)", pendIn(old(*p), S) ==> pendIn(*p, S))
 
 //@ func (p *Program) ldSyscallNum()   properties C03 C05
 //@   deterministic C13
@@ -188,6 +213,8 @@ package seccomp
 //@   use riLink(old(*p)) at exit
 //@   use riLink(*p) at exit
 //@   ensures @riS {C06} riS(old(*p)) ==> riS(*p)
+//@   ensures @ne {C07} riS(old(*p)) && ne(old(*p)) ==> ne(*p) && noJumpAtEnd(*p)
+//@   ensures @pend {C07} forallk(S, "(Array Int Bool)", pendIn(old(*p), S) ==> pendIn(*p, S))
 
 //@ func (p *Program) LdLo(arg uint32)   properties C02 C05
 //@   deterministic C13
@@ -207,6 +234,8 @@ package seccomp
 //@   use riLink(old(*p)) at exit
 //@   use riLink(*p) at exit
 //@   ensures @riS {C06} riS(old(*p)) ==> riS(*p)
+//@   ensures @ne {C07} riS(old(*p)) && ne(old(*p)) ==> ne(*p) && noJumpAtEnd(*p)
+//@   ensures @pend {C07} forallk(S, "(Array Int Bool)", pendIn(old(*p), S) ==> pendIn(*p, S))
 
 // nativeEndian is assigned once by init() (not verified: unsafe); it is one of the two orders.
 //@ global nativeEndian immutable
@@ -694,14 +723,25 @@ package seccomp
 //@   ensures @err result1 != nil ==> len(result0) == 0
 //@   ensures @lab result1 == nil ==> run(result0, 0, A0) == runL(old(*p), 0, A0)
 //@   ensures @sem result1 == nil && phi(old(*p)) ==> run(result0, 0, A0) == outG(old(p.G))
+//@   let NE0 = ne(*p) && pendIn(*p, emptyLabels)
+//@   ensures @noerr {C07} NE0 ==> result1 == nil
 //@   ensures @closed result1 == nil && ok(old(p)) ==> closed(result0) && retsInSet(result0, old(p.R))
 //@   ensures @len result1 == nil ==> len(result0) >= len(old(p.instructions))
 //@   opaque posMono jumpsComplete runL3 runP3
 //@   opaque closed retsInSet except closed
+//@   opaque fwdOK hopeOK pendIn except noerr ne_dest ne_curT ne_curF
 //@   ghost ghost.apos = idArr at entry
 //@   use monoId() at entry
 //@   use monoPivot(old(p.jumps)[i].index) at loop 1 body
 //@   use monoPivot(n0) at loop 1 body
+//@   use monoPivot(old(p.jumps)[i].index + 1) at loop 1 body
+//@   use fiaRange(old(p.labels)[old(p.jumps)[i].trueLabel], old(p.jumps)[i].index, 0) at loop 1 body
+//@   use fiaRange(old(p.labels)[old(p.jumps)[i].falseLabel], old(p.jumps)[i].index, 0) at loop 1 body
+//@   assert @ne_dest {C07} NE0 ==> destOf(old(p.labels), old(p.jumps)[i].trueLabel, old(p.jumps)[i].index) > old(p.jumps)[i].index && destOf(old(p.labels), old(p.jumps)[i].falseLabel, old(p.jumps)[i].index) > old(p.jumps)[i].index && (destOf(old(p.labels), old(p.jumps)[i].trueLabel, old(p.jumps)[i].index) >= old(p.jumps)[i].index + 2 || destOf(old(p.labels), old(p.jumps)[i].falseLabel, old(p.jumps)[i].index) >= old(p.jumps)[i].index + 2) at loop 1 body
+//@   assert @ne_curT {C07} NE0 ==> 0 <= firstIdxAbove(old(p.labels)[old(p.jumps)[i].trueLabel], old(p.jumps)[i].index, 0) && firstIdxAbove(old(p.labels)[old(p.jumps)[i].trueLabel], old(p.jumps)[i].index, 0) < len(p.labels[p.jumps[i].trueLabel]) && p.labels[p.jumps[i].trueLabel][firstIdxAbove(old(p.labels)[old(p.jumps)[i].trueLabel], old(p.jumps)[i].index, 0)] > p.jumps[i].index at loop 1 body
+//@   assert @ne_curF {C07} NE0 ==> 0 <= firstIdxAbove(old(p.labels)[old(p.jumps)[i].falseLabel], old(p.jumps)[i].index, 0) && firstIdxAbove(old(p.labels)[old(p.jumps)[i].falseLabel], old(p.jumps)[i].index, 0) < len(p.labels[p.jumps[i].falseLabel]) && p.labels[p.jumps[i].falseLabel][firstIdxAbove(old(p.labels)[old(p.jumps)[i].falseLabel], old(p.jumps)[i].index, 0)] > p.jumps[i].index at loop 1 body
+//@   use fiaAt(old(p.labels)[old(p.jumps)[i].trueLabel], old(p.jumps)[i].index, 0, ghost.mt[i]) when isFirstAbove(old(p.labels)[old(p.jumps)[i].trueLabel], old(p.jumps)[i].index, ghost.mt[i]) at after assign longFalse#1
+//@   use fiaAt(old(p.labels)[old(p.jumps)[i].falseLabel], old(p.jumps)[i].index, 0, ghost.mf[i]) when isFirstAbove(old(p.labels)[old(p.jumps)[i].falseLabel], old(p.jumps)[i].index, ghost.mf[i]) at after assign longFalse#1
 //@   use monoShift(jump.index + 1) at before call Program.insertBridge#1
 //@   use monoShift(jump.index + 1) at before call Program.insertBridge#2
 //@   use monoShift(jump.index + 1) at before call Program.insertBridge#3
